@@ -17,7 +17,11 @@ import (
 // subsection and stored one number lower.  If these predicted answers are
 // exactly the observed ones, the failure belongs to that class (F11).
 func explainedByOffByOne(rec histRecord, res *ser.Result, b *built) bool {
-	f, err := strict.Parse(res.Bytes)
+	pw := ""
+	if b.crypt != nil {
+		pw = b.crypt.password
+	}
+	f, err := parseStrict(res.Bytes, pw)
 	if err != nil {
 		return false
 	}
